@@ -130,6 +130,7 @@ func cmdCheck(args []string) int {
 	verbose := fs.Bool("v", false, "verbose")
 	noEvidence := fs.Bool("no-evidence", false, "do not write the evidence file")
 	workers := fs.Int("workers", envInt("VERIF_WORKERS", runtime.NumCPU()), "parallel workers")
+	validate := fs.Int("validate", -1, "passing paths per harness replayed natively (translator validation); default 0 quick, 1 thorough")
 	fs.Parse(args)
 	if t := os.Getenv("VERIF_TIER"); t != "" && *tier == "" {
 		*tier = t
@@ -163,6 +164,11 @@ func cmdCheck(args []string) int {
 		cfg.BudgetSec = 7200
 	}
 	cfg.BudgetSec = envInt("VERIF_BUDGET_S", cfg.BudgetSec)
+	if *validate >= 0 {
+		cfg.SamplePass = *validate
+	} else if *tier == "thorough" {
+		cfg.SamplePass = 1
+	}
 	cfg.QueryMs = envInt("VERIF_QUERY_MS", cfg.QueryMs)
 	cfg.EscalateSec = envInt("VERIF_ESCALATE_S", cfg.EscalateSec)
 	for _, k := range known {
@@ -219,6 +225,7 @@ func cmdCheck(args []string) int {
 	var knownHits []*Violation
 	var unconfirmed []*Violation
 	var solverSec float64
+	validated, mismatches := 0, 0
 	cpuSem = make(chan struct{}, cfg.Workers)
 	runs := make([]*HarnessRun, len(hs))
 	{
@@ -298,6 +305,16 @@ func cmdCheck(args []string) int {
 				fmt.Printf("      unsupported x%d: %s\n", run.Unsupported[k], k)
 			}
 		}
+		// translator validation: sampled PASSING paths must pass natively too
+		for _, v := range run.Passing {
+			path, res := w.replayViolation(h, v, *prop)
+			validated++
+			if res != "passed" {
+				fmt.Printf("SELFTEST-MISMATCH harness=%s: a path the engine found passing gives %q natively (%s)\n", h.name, res, path)
+				inconclusive = true
+				mismatches++
+			}
+		}
 		// replay violations natively
 		for _, v := range run.Violations {
 			path, res := w.replayViolation(h, v, *prop)
@@ -366,7 +383,9 @@ func cmdCheck(args []string) int {
 				"samples":                       samples,
 				"states":                        maxInt(totalStates, 1),
 				"transitions":                   maxInt(totalPaths, 1),
-				"traces_validated_against_impl": len(confirmed) + len(knownHits) + len(unconfirmed),
+				"traces_validated_against_impl": len(confirmed) + len(knownHits) + len(unconfirmed) + validated,
+				"passing_paths_replayed_natively": validated,
+				"passing_path_mismatches":         mismatches,
 				"obligations":                   totalOb,
 				"discharged":                    totalDis + totalTriv,
 				"obligations_trivial":           totalTriv,
